@@ -209,7 +209,24 @@ func (e *FuncEnc) encodeCall(in ssa.Instruction, c *ssa.CallCommon, res ssa.Valu
 			return
 		}
 	}
-	// call of a func value
+	// call of a func value: it may be a closure over local variable cells
+	{
+		saved := e.noPreserve
+		e.noPreserve = map[*ssa.Alloc]bool{}
+		for a := range saved {
+			e.noPreserve[a] = true
+		}
+		for a := range e.private {
+			if refs := a.Referrers(); refs != nil {
+				for _, r := range *refs {
+					if _, ok := r.(*ssa.MakeClosure); ok {
+						e.noPreserve[a] = true
+					}
+				}
+			}
+		}
+		defer func() { e.noPreserve = saved }()
+	}
 	fv := e.v(c.Value)
 	e.safety("nilcall", e.describe(c.Value), not(eq(fv, "0")), in.Pos())
 	name := "func:" + shortType(c.Value.Type())
@@ -282,6 +299,16 @@ func isModuleFn(w *World, f *ssa.Function) bool {
 }
 
 func (e *FuncEnc) staticCall(in ssa.Instruction, f *ssa.Function, bindings []ssa.Value, argVals []ssa.Value, args []string, rts []types.Type, res ssa.Value) {
+	if bindings != nil {
+		// a closure may write the variable cells it captures
+		saved, savedOuter := e.noPreserve, e.noPreserveOuter
+		e.noPreserveOuter = saved
+		e.noPreserve = capturedAllocs(bindings)
+		for a := range saved {
+			e.noPreserve[a] = true
+		}
+		defer func() { e.noPreserve, e.noPreserveOuter = saved, savedOuter }()
+	}
 	full := f.String()
 	if f.Origin() != nil {
 		full = f.Origin().String()
@@ -305,7 +332,11 @@ func (e *FuncEnc) staticCall(in ssa.Instruction, f *ssa.Function, bindings []ssa
 	}
 	envOnly := c != nil && c.Options["env"] == "true" && len(c.Requires) == 0 && len(c.Ensures) == 0 && c.RetHook == nil && c.PostHook == nil
 	if e.W != nil && e.W.InlineClosures && (c == nil || envOnly) && f.Parent() != nil && bindings != nil && isModuleFn(e.W, f) && dagInlinable(f) && e.inlineDepth < 4 {
+		// the body is unfolded: its stores are seen one by one
+		cur := e.noPreserve
+		e.noPreserve = e.noPreserveOuter
 		e.inlineDAG(in, f, bindings, argVals, args, res)
+		e.noPreserve = cur
 		return
 	}
 	if c != nil {
@@ -467,10 +498,6 @@ func (e *FuncEnc) contractCall(in ssa.Instruction, f *ssa.Function, c *Contract,
 		for _, nf := range c.PreHook(e, args) {
 			e.obligeKeep("call:"+f.Name(), "requires:"+nf.Name, nf.Formula, in.Pos())
 		}
-	}
-	if bindings != nil {
-		e.noPreserve = capturedAllocs(bindings)
-		defer func() { e.noPreserve = nil }()
 	}
 	if !c.Pure {
 		keys, top, tr := e.W.ModSet(f)
